@@ -1021,7 +1021,12 @@ def check_cases(ctx, cases):
                 stats["instance_certificates"] = stats.get("instance_certificates", 0) + 1
         # model against implementation
         diffs = []
-        if m_render != o["render"]:
+        if list(m_render) == ["Error", "EUnfilled"] and o["render"][0] == "Ok":
+            # the statement itself: "an unfilled placeholder raises the dedicated error" -- wherever the placeholder stands
+            ctx.fail("failing-input", f"get_filename returned {o['render'][1]!r} although a user placeholder of {tag} is left unfilled "
+                     f"(fill {c['fill']}); UnfilledPlaceholderError expected", case=c, impl=o["render"], model=list(m_render),
+                     signature="law-unfilled")
+        elif m_render != o["render"]:
             diffs.append(("render", o["render"], m_render))
         if regexy:
             pass      # a literal with regex syntax: the template is a user-written regex, outside the model
